@@ -183,6 +183,12 @@ def annotations_of(text):
     out = {}
     tree = ast.parse(text)
 
+    def put(key, val):
+        # one name defined in several arms: an unannotated occurrence is what gets reported
+        if key in out and out[key] is None:
+            return
+        out[key] = val
+
     def walk(body, path):
         for n in body:
             if isinstance(n, ast.ClassDef):
@@ -191,9 +197,19 @@ def annotations_of(text):
                 q = ".".join(path + [n.name])
                 a = n.args
                 for arg in list(a.posonlyargs) + list(a.args) + list(a.kwonlyargs) + [x for x in (a.vararg, a.kwarg) if x]:
-                    out[(q, arg.arg)] = ast.unparse(arg.annotation) if arg.annotation is not None else None
-                out[(q, "return")] = ast.unparse(n.returns) if n.returns is not None else None
+                    put((q, arg.arg), ast.unparse(arg.annotation) if arg.annotation is not None else None)
+                put((q, "return"), ast.unparse(n.returns) if n.returns is not None else None)
                 walk(n.body, path + [n.name + ".<locals>"])
+            else:
+                # definitions inside module-level / class-level compound statements (if / try / with / for / while) keep their path
+                for field in ("body", "orelse", "finalbody"):
+                    sub = getattr(n, field, None)
+                    if isinstance(sub, list) and sub and isinstance(sub[0], ast.stmt):
+                        walk(sub, path)
+                for h in getattr(n, "handlers", None) or ():
+                    walk(h.body, path)
+                for c in getattr(n, "cases", None) or ():
+                    walk(c.body, path)
 
     walk(tree.body, [])
     return out
